@@ -327,6 +327,24 @@ Proof.
   - intros id Hn. rewrite H. rewrite (lookup_none id caps Hn). reflexivity.
 Qed.
 
+(* Target.SetCapabilities on a Version that already carries answers (general initial call list m): listed
+   objects with ranges get the specification's answer, every other object keeps the answer it had *)
+Lemma set_on_existing : forall v caps m, functional ver caps -> caps_okS v caps = true ->
+  exists m', set_capsM v caps m = Ok m' /\
+    (forall id r rs, In (id, r :: rs) caps -> has m' id = has_specS v (r :: rs)) /\
+    (forall id, (forall rs, In (id, rs) caps -> rs = []) -> has m' id = has m id).
+Proof.
+  intros v caps m Hf Hok. destruct (set_caps_ok v caps m Hok Hf) as [m' [E H]].
+  exists m'. split; [exact E|]. split.
+  - intros id r rs Hin. rewrite H. rewrite (in_lookup id caps (r :: rs) Hf Hin). reflexivity.
+  - intros id Hn. rewrite H. destruct (lookup id caps) as [[|r rs]|] eqn:El; [reflexivity| |reflexivity].
+    apply lookup_in in El. specialize (Hn _ El). discriminate Hn.
+Qed.
+
+(* DefaultVersion: an answer belongs to the capability OBJECT it was set for *)
+Lemma has_latest : forall (m : log) id b id', has ((id, b) :: m) id' = if id =? id' then b else has m id'.
+Proof. intros m id b id'. reflexivity. Qed.
+
 Lemma ok_iff : forall v caps, (exists m, versionM v caps = Ok m) <-> caps_okS v caps = true.
 Proof.
   intros v caps. split.
